@@ -120,7 +120,15 @@ class Device:
             return ST_PATH_UNKNOWN, (), b""
         if rq.service == 0x01:
             # trailing request bytes tolerated (pycomm3 appends the route on the direct-UCMM path by design)
-            return ST_OK, (), self.identity.object_bytes()
+            out = self.identity.object_bytes()
+            if getattr(self, "identity_optional_attrs", None) is None:
+                self.identity_optional_attrs = self.rng.random() < 0.25
+            if self.identity_optional_attrs:
+                # Get_Attributes_All returns every attribute the device implements: after the product name the optional State (USINT),
+                # Configuration Consistency Value (UINT) and Heartbeat Interval (USINT) may follow
+                out += bytes([3]) + (0x1234).to_bytes(2, "little") + bytes([10])
+                self.log.c("identity-objects-with-optional-attributes")
+            return ST_OK, (), out
         if rq.service == 0x0E:
             attr = rq.logical("attribute")
             i = self.identity
@@ -184,6 +192,10 @@ class RefTarget:
 
     def new_session_handle(self):
         # any non-zero 32-bit value is a legal handle: now and then one from the ends of the range (sign bit, all ones, 1)
+        hint = getattr(self.policy, "next_session_handle", None)
+        if hint and hint not in self.sessions:
+            self.policy.next_session_handle = None
+            return hint
         if self.rng.random() < 0.08:
             h = self.rng.choice([0x80000000, 0xFFFFFFFF, 0x00000001, 0x7FFFFFFF, 0x00010000, 0x80000001])
             if h not in self.sessions:
@@ -461,8 +473,8 @@ class TcpConn:
         status, ext, rdata = t.front.handle(rq)
         return self.rr_reply(h, mr_reply(service, status, ext, rdata), {"kind": "rr", "service": service, "transport": "ucmm"})
 
-    def rr_reply(self, h, mr, info):
-        body = enc.build_cpf([(enc.ITEM_NULL, b""), (enc.ITEM_UNCONN_DATA, mr)])
+    def rr_reply(self, h, mr, info, extra_items=()):
+        body = enc.build_cpf([(enc.ITEM_NULL, b""), (enc.ITEM_UNCONN_DATA, mr)] + list(extra_items))
         info.setdefault("mr_offset", enc.HEADER + 16)
         return self.reply(info, enc.build_frame(enc.CMD_RRDATA, h["session"], body, context=h["context"]))
 
@@ -597,9 +609,18 @@ class TcpConn:
         t.connections[ot_id] = conn
         t.triads[triad] = conn
         log.c("connections-opened")
+        # a successful reply ends with the application-reply size (in words) and a reserved byte; a target may append application
+        # reply data there, and may add Sockaddr Info items to the common packet (CIP Vol 2, 3-3): both are the target's choice
+        app_words = t.rng.choice([1, 2, 3]) if t.rng.random() < 0.15 else 0
         rdata = (ot_id.to_bytes(4, "little") + to_req.to_bytes(4, "little") + data[10:18] + ot_rpi.to_bytes(4, "little")
-                 + to_rpi.to_bytes(4, "little") + b"\x00\x00")
-        return self.rr_reply(h, mr_reply(service, ST_OK, (), rdata), dict(info, opened=conn))
+                 + to_rpi.to_bytes(4, "little") + bytes([app_words, 0]) + bytes(t.rng.getrandbits(8) for _ in range(2 * app_words)))
+        extra = []
+        if t.rng.random() < 0.10:
+            extra = [(0x8000, (2).to_bytes(2, "big") + (2222).to_bytes(2, "big") + bytes([239, 192, 1, 32]) + bytes(8))]
+            log.c("forward-open-replies-with-a-sockaddr-item")
+        if app_words:
+            log.c("forward-open-replies-with-application-data")
+        return self.rr_reply(h, mr_reply(service, ST_OK, (), rdata), dict(info, opened=conn), extra_items=extra)
 
     def forward_close(self, h, data):
         t, log = self.t, self.t.log
@@ -672,7 +693,13 @@ class TcpConn:
         status, ext, rdata = conn.device.handle(rq)
         mr = mr_reply(service, status, ext, rdata)
         if 2 + len(mr) > conn.size:
-            log.v("C04", "target-internal-oversize-reply", f"reference target built a {2 + len(mr)}-byte reply for a {conn.size}-byte connection (harness bug)", None)
+            if getattr(conn.device, "obeys_capacity", False):
+                log.v("C04", "target-internal-oversize-reply", f"reference target built a {2 + len(mr)}-byte reply for a {conn.size}-byte connection (harness bug)", None)
+            else:
+                # the connection size was negotiated in the Forward Open: an answer that does not fit is not sent, the request fails
+                # with "reply data too large" (a client that asked for a smaller connection than its requests need finds out here)
+                log.c("replies-refused-as-too-large-for-the-connection")
+                mr = mr_reply(service, 0x11, (), b"")
         conn.last_reply = mr
         return self.unit_reply(h, conn, seq, mr, {"kind": "unit", "service": service, "transport": "connected"})
 
